@@ -702,6 +702,9 @@ func (e *Exec) appendSlices(st *State, a, b Val, rt types.Type) Val {
 	arr := e.sc.Fresh("appended", ArraySort(SInt, el))
 	e.lenFact(st, a.T)
 	e.lenFact(st, b.T)
+	if e.binders > 0 {
+		e.fail(token.NoPos, "append of two slices under a quantifier binder (give the callee a pure contract)")
+	}
 	e.sc.Assert(T(SBool, fmt.Sprintf("(forall ((i Int)) (! (= (select %s i) (ite (< i %s) (select %s i) (select %s (- i %s)))) :pattern ((select %s i))))",
 		arr.S, SlcLen(a.T).S, SlcArr(a.T).S, SlcArr(b.T).S, SlcLen(a.T).S, arr.S)))
 	return Val{T: MkSlc(el, arr, Add(SlcLen(a.T), SlcLen(b.T)), Or(SlcNN(a.T), Gt(SlcLen(b.T), IntLit(0)))), GT: rt, Orig: a.Orig}
